@@ -75,6 +75,53 @@ def reference(table, p_f, p_i, t_key):
     return x, W, F, plateau, rfd
 
 
+LATE_TARGET = 1e-7   # the late-time ladder runs until the exact solution has relaxed to this fraction of the drawdown
+LATE_RATIO, LATE_FLOOR, LATE_CAP = 0.75, 0.02, 1.0  # measured: |e| = 0.63 / 0.21 at the last rung, ratios 0.49..0.63
+
+
+@functools.lru_cache(maxsize=None)
+def late_reference(ref, table, p_f, p_i):
+    """(T, w_ref): the time at which the exact outer-boundary value has decayed to about LATE_TARGET of the
+    drawdown, and that value (closed form, or the method-of-lines reference integrated that far)."""
+    if ref == "fourier":
+        T = float(np.log(4 / np.pi / LATE_TARGET) / (np.pi**2 / 4))
+        return T, float(fourier.field(np.array([1.0]), T)[0])
+    tb = tables.table(table)
+    p, m = tb["pressure"], tb["pseudopressure"]
+    alpha_col = tb["alpha"] if "alpha" in tb else 1.0 / (tb["compressibility"] * tb["viscosity"])
+    m_f, m_i = np.interp(p_f, p, m), np.interp(p_i, p, m)
+    w_nodes = (m - m_f) / (m_i - m_f)
+    al = mol.AlphaTable(w_nodes, alpha_col / np.interp(1.0, w_nodes, alpha_col))
+    ts = np.geomspace(0.5, 5e4, 60)
+    _, W = mol.solve(al, np.concatenate([[0.0], ts]), N=200, rtol=1e-7, atol=1e-13)
+    amp = W[1:, -1]
+    k = int(np.argmax(amp < LATE_TARGET))
+    if not amp[k] < LATE_TARGET:
+        return None, None
+    T = float(ts[k])
+    _, W = mol.solve(al, np.array([0.0, T]), N=400, rtol=1e-9, atol=1e-14)
+    return T, float(W[1, -1])
+
+
+def late_ladder(case, rungs):
+    """log of (simulated / exact) outer-boundary value at a time when the exact solution has relaxed to
+    ~1e-7 of the drawdown: the time-stepping error of the decay rate, which must vanish under refinement.  A
+    solver that stops relaxing early, or whose linear-solve error competes with the remaining drawdown, shows
+    up here as a constant offset of several units while the early-time errors above stay within their bounds."""
+    T, w_ref = late_reference(case["ref"], case["table"], case["p_f"], case["p_i"])
+    if T is None:
+        return None
+    es = []
+    for nx, nt in rungs:
+        t = sim.time_grid("quadratic", nt, T)
+        res = sim.make_reservoir(case["cls"], nx, case["p_f"], case["p_i"], case["table"])
+        res.simulate(t)
+        m_f, m_i = sim.frac_values(res, case["cls"], case["p_f"], None, len(t))
+        w = (float(np.asarray(res.pseudopressure)[-1, -1]) - m_f[0]) / (m_i - m_f[0])
+        es.append(float(np.log(max(w, 1e-300) / w_ref)))
+    return {"T": T, "w_ref": w_ref, "log_ratio": es}
+
+
 def interval_distance(u, x_lo, x_hi, xr, wr):
     """Distance from u_j to the range of the (monotone in x) reference on [x_lo_j, x_hi_j]."""
     lo = np.interp(np.clip(x_lo, 0, 1), xr, wr)
@@ -143,8 +190,22 @@ def evaluate(case):
             viol.append(V(f"convergence/cap/{key}", f"{key} = {es[-1]:.4g} at {rungs[-1]} exceeds the first-order "
                           f"cap {CAP}/nx = {CAP / rungs[-1][0]:.4g}; ladder {[round(e, 5) for e in es]}", case=case,
                           observed=es, tol=CAP / rungs[-1][0]))
-    nsteps = sum(nt for _, nt in rungs)
-    return {"violations": viol, "ladder": L, "states": nsteps, "transitions": nsteps - len(rungs),
+    late = late_ladder(case, rungs)
+    if late:
+        es = [abs(e) for e in late["log_ratio"]]
+        msg = (f"at t={late['T']:.4g} the exact outer-boundary value is {late['w_ref']:.3g} of the drawdown; "
+               f"ln(simulated/exact) along the ladder {rungs} is {[round(e, 4) for e in late['log_ratio']]}")
+        if es[-1] > max(LATE_RATIO * es[-2], LATE_FLOOR):
+            viol.append(V("convergence/late-time/ratio", msg + f": does not shrink by {LATE_RATIO} at the last refinement",
+                          case=case, observed=late["log_ratio"], tol=LATE_RATIO))
+        elif abs(2 * late["log_ratio"][-1] - late["log_ratio"][-2]) > 0.5 * es[-1] + 0.05:
+            viol.append(V("convergence/late-time/limit", msg + ": extrapolates to a non-zero limit", case=case,
+                          observed=late["log_ratio"]))
+        if es[-1] > LATE_CAP * 80 / rungs[-1][0]:
+            viol.append(V("convergence/late-time/cap", msg + f": exceeds {LATE_CAP * 80 / rungs[-1][0]:.3g} at the last rung",
+                          case=case, observed=late["log_ratio"]))
+    nsteps = sum(nt for _, nt in rungs) * (2 if late else 1)
+    return {"violations": viol, "ladder": L, "late": late, "states": nsteps, "transitions": nsteps - len(rungs),
             "outcome": "ratio<=%.1f" % (np.ceil(10 * max((L[k + 1]["E_rf"] / max(L[k]["E_rf"], 1e-300))
                                                          for k in range(len(L) - 1))) / 10)}
 
@@ -169,6 +230,8 @@ def run(ctx):
         "samples": samples_of([{**c, "ladder": r.get("ladder")} for c, r in zip(cs, res)]),
         "configurations": len(cs), "time_levels_simulated": sum(r.get("states", 0) for r in res),
         "worst_refinement_ratio": worst_ratio,
+        "late_time_ladders": sum(1 for r in res if r.get("late")),
+        "worst_late_log_ratio_last": max((abs(r["late"]["log_ratio"][-1]) for r in res if r.get("late")), default=None),
         "worst_Exnx_last": max((r["ladder"][-1]["E_rf"] * r["ladder"][-1]["nx"]) for r in res if r.get("ladder")),
     }
     return ctx.finish("exploration", cov, [
@@ -176,6 +239,9 @@ def run(ctx):
         "validated against the series to 1e-5) are exact for the purpose of a 2e-4 floor",
         "node j is compared with the reference on [x_j - 1.5h, x_j + 1.5h], x_j=(j+1)/nx: any O(h) node convention",
         "asymptotic statement decided on a finite ladder: ratio <= 0.75 per rung and E_last <= 6/nx",
+        "late-time ladder: the same rungs run until the exact outer-boundary value is ~1e-7 of the drawdown; "
+        "|ln(simulated/exact)| must shrink by 0.75 at the last refinement, extrapolate to 0 and stay below 1 "
+        "(measured 0.63 ideal / 0.21 single-phase at nx=80)",
     ])
 
 
